@@ -294,6 +294,8 @@ Inv_RestartFresh ==
   LET r == Restart(snap, log)
   IN /\ r.N = m.N /\ r.total = m.total
      /\ \A d \in Docs : (r.e2i[d] # 0) <=> (m.e2i[d] # 0)
+     /\ DOMAIN r.meta = {r.e2i[d] : d \in LiveDocs}
+     /\ \A d \in LiveDocs : r.meta[r.e2i[d]] = cur[d]
      /\ DOMAIN r.dl = {r.e2i[d] : d \in TextDocs}
      /\ DOMAIN m.dl = {m.e2i[d] : d \in TextDocs}
      /\ \A d \in TextDocs : r.dl[r.e2i[d]] = m.dl[m.e2i[d]]
